@@ -193,6 +193,17 @@ func (c13) Run(ctx *RunCtx) {
 	} else {
 		k = c.Range("burst", 2, 5)
 	}
+	// scripted configuration bursts (a third of the configuration runs): a
+	// change, the feature switched over, a change that leaves the diagnostics as
+	// they were, switched back, the same again - the orders in which "what was
+	// published last" and "what is shown" can come apart
+	var script []int
+	if cfgMode && c.Pct("cfg-script", 35) {
+		same := []int{3, 5}[c.Choose("script-same", 2)] // revision-only change or undo
+		script = [][]int{{4, same, 4, same}, {0, 4, same, 4, same}, {4, 0, 4, same}, {same, 4, 4, same}}[c.Choose("script", 4)]
+		k = len(script)
+		ctx.Stats.Inc("probe:scripted-configuration-burst")
+	}
 	for b := 0; b < k; b++ {
 		i := 0
 		if ndocs == 2 {
@@ -206,8 +217,11 @@ func (c13) Run(ctx *RunCtx) {
 		if !enumerated {
 			kind = c.Weighted("burst-kind", []int{6, 2, 1, 3, 0, 2})
 		}
-		if cfgMode && c.Pct("cfg-toggle", 30) {
+		if cfgMode && script == nil && c.Pct("cfg-toggle", 30) {
 			kind = 4
+		}
+		if script != nil {
+			kind = script[b]
 		}
 		if kind != 4 {
 			settled[i] = serverQuiet()
@@ -475,8 +489,8 @@ func (c13) Run(ctx *RunCtx) {
 					// a superseded change of this document
 					// (with diagnostics switched off in the end an empty list is what a
 					// fresh server shows too, whoever sent it)
-					if by, latest, ok := publisher(i); cliDiag && ok && by != latest && publishedBy(i, latest) != "" && publishedBy(i, latest) != "[]" {
-						fail("stale-final-publish", fmt.Sprintf("document d%d: the last publish (an empty list, diagnostics switched off) was sent by the analysis of its change #%d of the burst AFTER the analysis of its latest change #%d had published %s: diagnostics computed for a superseded version remain the final word", i+1, by+1, latest+1, trunc(publishedBy(i, latest), 200)))
+					if by, latest, ok := publisher(i); cliDiag && ok && by != latest && publishedBy(i, latest) != "[]" {
+						fail("stale-final-publish", fmt.Sprintf("document d%d: the last publish (an empty list, diagnostics switched off) was sent by the analysis of its change #%d of the burst although the analysis of its latest change #%d published %s: diagnostics computed for a superseded version remain the final word", i+1, by+1, latest+1, map[bool]string{true: "nothing at all", false: trunc(publishedBy(i, latest), 200)}[publishedBy(i, latest) == ""]))
 						return
 					}
 					ctx.Stats.Inc("probe:final-publish-under-unsettled-configuration")
